@@ -326,13 +326,14 @@ def build_driver(fams, workdir):
             all(os.path.getmtime(x) <= os.path.getmtime(drv) for x in deps):
         return True, ""
     open(exf, "w").write(ex)
-    rc, out = sh("coqc -Q %s DS -o %s ../Extract.v" % (os.path.join(COQ, "theories"), os.path.join(workdir, "Extract.vo")), cwd=gen, timeout=900)
+    # large translated tables (composite x-arrays, Huffman tables) make extraction and ocamlopt recurse deeply
+    rc, out = sh("ulimit -s unlimited 2>/dev/null; coqc -Q %s DS -o %s ../Extract.v" % (os.path.join(COQ, "theories"), os.path.join(workdir, "Extract.vo")), cwd=gen, timeout=900)
     if rc != 0:
         return False, out
     shutil.copy(os.path.join(OCAML, "driver.ml"), os.path.join(workdir, "driver.ml"))
     if os.path.exists(drv):
         os.remove(drv)
-    rc, out2 = sh("ocamlfind ocamlopt -O2 -rectypes -thread -package coq-core.kernel -linkpkg -I gen gen/model.mli gen/model.ml "
+    rc, out2 = sh("ulimit -s unlimited 2>/dev/null; ocamlfind ocamlopt -O2 -rectypes -thread -package coq-core.kernel -linkpkg -I gen gen/model.mli gen/model.ml "
                   "driver.ml -o driver 2>&1 | grep -v WARNING", cwd=workdir, timeout=900)
     if not os.path.exists(drv):
         return False, out + out2
